@@ -7,7 +7,7 @@ Type trees are tuples:
 Public variable types: ("val", t) | ("map", keytype, ptype)
 """
 
-FLAG_MEMBERS = ["A", "B", "C", "D"]
+FLAG_MEMBERS = ["WRITE", "READ", "EXEC", "ADMIN"]   # deliberately not in alphabetical order
 ADDR_LIT = "0x0000000000000000000000000000000000000123"
 
 
@@ -223,7 +223,7 @@ class Gen:
         name = f"S{len(self.structs)}"
         self.structs.append(None)  # reserve
         n = r.randint(1, 3)
-        names = [f"m{j}" for j in range(n)]
+        names = [f"{'zma'[j]}{j}" for j in range(n)]   # z0, m1, a2: declaration order is not alphabetical order
         ts = []
         for _ in range(n):
             if r.random() < 0.1:
